@@ -49,6 +49,36 @@ def gen_ranked(rng, m, shared=False, n_ballots=None, full=False):
     return [[json.loads(k), str(w)] for k, w in seen.items()]
 
 
+def gen_ranked_tied(rng, m):
+    """tie-heavy ranked profiles: mirrored ballot pairs, full rotations, duplicates of one ranking - the shapes on which
+    pairwise contests, Copeland scores, Borda scores and first preferences tie exactly"""
+    cands = list(range(m))
+    kind = rng.choice(['mirror', 'mirror', 'rotation', 'mirror_plus', 'two_mirrors'])
+    out = {}
+
+    def add(b, w):
+        k = json.dumps(b)
+        out[k] = out.get(k, 0) + w
+    w = rng.choice([1, 1, 2, 3])
+    b = rng.sample(cands, rng.randint(2, m)) if m >= 2 else cands
+    if kind in ('mirror', 'mirror_plus', 'two_mirrors'):
+        add(b, w)
+        add(b[::-1], w)
+    if kind == 'two_mirrors':
+        b2 = rng.sample(cands, rng.randint(2, m))
+        w2 = rng.choice([1, 2])
+        add(b2, w2)
+        add(b2[::-1], w2)
+    if kind == 'rotation':
+        full = rng.sample(cands, m)
+        for i in range(m):
+            add(full[i:] + full[:i], w)
+    if kind == 'mirror_plus':
+        extra = rng.sample(cands, rng.randint(1, m))
+        add(extra, rng.choice([1, 1, 2]))
+    return [[json.loads(k), str(v)] for k, v in out.items()]
+
+
 def gen_approval(rng, m, n_ballots=None):
     nb = n_ballots or rng.randint(1, 7)
     seen = {}
@@ -260,6 +290,8 @@ def families():
 def gen_profile(rng, vtype, m):
     if vtype == 'simple':
         return gen_simple(rng, m)
+    if vtype in ('ranked', 'ranked_noshared') and rng.random() < 0.25:
+        return gen_ranked_tied(rng, m)
     if vtype == 'ranked':
         return gen_ranked(rng, m, shared=rng.random() < 0.3)
     if vtype == 'ranked_noshared':
